@@ -22,6 +22,7 @@ CONSTANTS
   AttachEarly = %(ae)s
   KeepHist = %(keep)s
   OpKinds <- %(kinds)s
+  StartKinds <- %(starts)s
 %(body)s
 CHECK_DEADLOCK FALSE
 """
@@ -29,8 +30,8 @@ INV = ("INVARIANTS TypeOK NameUnique OwnerFindable LookupOnlyOpen ListedOnlyLive
        "ExactlyOnce\nVIEW DesignView")
 
 
-def cfg(threads, names, mods, ops, ubi="TRUE", ae="TRUE", keep="FALSE", kinds="CoreOps", body=INV):
-    return MC % dict(threads=threads, names=names, mods=mods, ops=ops, ubi=ubi, ae=ae, keep=keep, kinds=kinds, body=body)
+def cfg(threads, names, mods, ops, ubi="TRUE", ae="TRUE", keep="FALSE", kinds="CoreOps", body=INV, starts="StartsNone"):
+    return MC % dict(threads=threads, names=names, mods=mods, ops=ops, ubi=ubi, ae=ae, keep=keep, kinds=kinds, body=body, starts=starts)
 
 
 def validate_trace(ctx, path, tag):
@@ -90,11 +91,13 @@ def run(ctx):
     # 1. design
     files = {"mc.cfg": cfg("T3" if q else "T3", "N2" if q else "N3", 3 if q else 4, 2),
              "mc2.cfg": cfg("T2", "N3", 4, 3, kinds="AllOps"),
+             "mc3.cfg": cfg("T2", "N2", 3, 2, starts="StartsBoth"),
              "neg1.cfg": cfg("T2", "N2", 3, 2, ubi="FALSE"),
              "neg2.cfg": cfg("T2", "N2", 3, 2, ae="FALSE"),
-             "gen.cfg": cfg("T1", "N3", 3, 4 if q else 5, keep="TRUE", kinds="AllOps", body="INVARIANTS Emit")}
+             "gen.cfg": cfg("T1", "N3", 3, 4 if q else 5, keep="TRUE", kinds="AllOps", body="INVARIANTS Emit", starts="StartsBoth")}
     ctx.tlc("RegistryMC", "mc.cfg", extra_files=files, tag="design:3-threads", timeout=3000)
     ctx.tlc("RegistryMC", "mc2.cfg", extra_files=files, tag="design:2-threads-3-ops-all-kinds", timeout=3000)
+    ctx.tlc("RegistryMC", "mc3.cfg", extra_files=files, tag="design:2-threads-failing-start-functions", timeout=3000)
     # the model distinguishes the demanded design from the two deviations the pinned code had
     for c, inv in (("neg1.cfg", "OwnerFindable"), ("neg2.cfg", "ExactlyOnce")):
         r = ctx.tlc("RegistryMC", c, extra_files=files, expect_ok=False, design=False, tag="sensitivity:" + c)
@@ -104,6 +107,12 @@ def run(ctx):
     # 2. sequential histories -> replay
     g = ctx.tlc("RegistryMC", "gen.cfg", extra_files=files, design=False, tag="gen:sequential")
     beh = g["emitted"]
+    ctx.extra["sequential_histories_enumerated"] = len(beh)
+    if q and len(beh) > 25000:      # every history without a start function, a seeded sample of the others
+        import random
+        plain = [b for b in beh if all(h.get("start", "none") == "none" for h in b["hist"])]
+        rest = [b for b in beh if not all(h.get("start", "none") == "none" for h in b["hist"])]
+        beh = plain + random.Random(ctx.seed).sample(rest, max(0, min(len(rest), 25000 - len(plain))))
     ctx.exhaustive = True
     results = ctx.replay("replay-registry", beh)
     for b, r in zip(beh, results):
